@@ -239,6 +239,8 @@ class FaultInterp {
   };
 
   static bool strong_op(const Scenario &sc, long pos, long size) {
+    // the statement promises the strong guarantee 'element moves being noexcept'; with a copy-only element a move is a throwing copy
+    if (!std::is_nothrow_move_constructible<E>::value) return false;
     switch (sc.op) {
       case 0: case 1: case 2: case 3: case 4: case 5: return true;
       case 6: case 8: return pos == size;
@@ -377,7 +379,7 @@ class FaultInterp {
         size_t expect_live = now.size() + onow.size();
         if (cells().live != expect_live)
           violation(P09 | P02, "%s: %u element value(s) alive but %zu visible: %s", where, cells().live, expect_live, cells().live > expect_live ? "leak" : "double destroy");
-        if (std::is_same<E, NTR>::value && shells().live != expect_live)
+        if ((std::is_same<E, NTR>::value || std::is_same<E, CO>::value) && shells().live != expect_live)
           violation(P09 | P02, "%s: %u element object(s) alive but %zu visible", where, shells().live, expect_live);
       }
       // ---- strong guarantee
